@@ -195,7 +195,9 @@ func (s *Server) cmdSetHook(msg *Message) (
 				return resp.IntegerValue(0), d, nil
 			}
 		}
-		prevHook.Close()
+		// the new definition takes over the queue of the old one, and only
+		// starts to send once the old one has stopped
+		hook.after = prevHook.closeReplaced()
 		s.hooks.Delete(prevHook)
 		s.hooksOut.Delete(prevHook)
 		if !prevHook.expires.IsZero() {
@@ -518,6 +520,9 @@ type Hook struct {
 	expires    time.Time
 	counter    *atomic.Int64 // counter that grows when a message was sent
 	sig        int
+	replaced   bool            // closed because a new definition took its place
+	done       chan struct{}   // closed when the manager has ended
+	after      <-chan struct{} // the done channel of the hook this one replaced
 }
 
 // Expires returns when the hook expires. Required by the expire.Item interface.
@@ -591,7 +596,22 @@ func (h *Hook) Open() {
 	}
 	h.opened = true
 	h.query = `{"hook":` + jsonString(h.Name) + `}`
+	h.done = make(chan struct{})
 	go h.manager()
+}
+
+// closeReplaced closes a hook whose name goes on under a new definition. What
+// it has not sent yet stays queued for its successor, which waits on the
+// returned channel before it sends anything.
+func (h *Hook) closeReplaced() <-chan struct{} {
+	h.cond.L.Lock()
+	if !h.closed {
+		h.replaced = true
+	}
+	done := h.done
+	h.cond.L.Unlock()
+	h.Close()
+	return done
 }
 
 // Close closed the hook and stop the manager function
@@ -651,6 +671,11 @@ func (h *Hook) purgeQueue() {
 // the manager is a forever loop that calls proc whenever there's a signal.
 // it ends when the "closed" flag is set.
 func (h *Hook) manager() {
+	defer close(h.done)
+	if h.after != nil {
+		// two senders for one name would deliver out of order
+		<-h.after
+	}
 	// lock the hook to waiting on signals
 	h.cond.L.Lock()
 	defer h.cond.L.Unlock()
@@ -671,8 +696,9 @@ func (h *Hook) manager() {
 			time.Sleep(time.Second / 2)
 			continue
 		}
-		if sig != h.sig {
-			// there was another incoming signal
+		if sig != h.sig || h.closed {
+			// there was another incoming signal, or the hook was closed while
+			// sending: the wake-up of Close is not repeated
 			continue
 		}
 		// wait on signal
@@ -731,10 +757,49 @@ func (h *Hook) proc() (ok bool) {
 		return false
 	}
 
+	// requeue puts what has not been sent back into the queue, unless the hook
+	// has been deleted meanwhile: its queue went with it.
+	requeue := func(i int) {
+		h.cond.L.Lock()
+		deleted := h.closed && !h.replaced
+		h.cond.L.Unlock()
+		if deleted {
+			return
+		}
+		keys, vals, ttls := keys[i:], vals[i:], ttls[i:]
+		h.db.Update(func(tx *buntdb.Tx) error {
+			for i, key := range keys {
+				val := vals[i]
+				ttl := ttls[i] - time.Since(start)
+				if ttl > 0 {
+					opts := &buntdb.SetOptions{
+						Expires: true,
+						TTL:     ttl,
+					}
+					_, _, err := tx.Set(key, val, opts)
+					if err != nil {
+						return err
+					}
+				}
+			}
+			return nil
+		})
+	}
+
 	// send each val. on failure reinsert that one and all of the following
 	for i, key := range keys {
 		val := vals[i]
 		idx := hookLogKeyIdx(key)
+		if i > 0 {
+			h.cond.L.Lock()
+			closed := h.closed
+			h.cond.L.Unlock()
+			if closed {
+				// the rest is for the successor, if there is one
+				requeue(i)
+				return true
+			}
+		}
 		var sent bool
 		for _, endpoint := range h.Endpoints {
 			err := h.epm.Send(endpoint, val)
@@ -751,33 +816,7 @@ func (h *Hook) proc() (ok bool) {
 		if !sent {
 			// failed to send. try to reinsert the remaining.
 			// if this fails we lose log entries.
-			keys = keys[i:]
-			vals = vals[i:]
-			ttls = ttls[i:]
-			h.cond.L.Lock()
-			closed := h.closed
-			h.cond.L.Unlock()
-			if closed {
-				// deleted meanwhile: nothing goes back into the queue
-				return true
-			}
-			h.db.Update(func(tx *buntdb.Tx) error {
-				for i, key := range keys {
-					val := vals[i]
-					ttl := ttls[i] - time.Since(start)
-					if ttl > 0 {
-						opts := &buntdb.SetOptions{
-							Expires: true,
-							TTL:     ttl,
-						}
-						_, _, err := tx.Set(key, val, opts)
-						if err != nil {
-							return err
-						}
-					}
-				}
-				return nil
-			})
+			requeue(i)
 			return false
 		}
 	}
